@@ -100,6 +100,15 @@ impl AuthNode {
         self.subs.push(sub);
         self
     }
+    /// Does the authorisation the contracts actually demanded (recorded by the host while every
+    /// address approves everything) fall within this tree?  The root must be the same call with the
+    /// same arguments; every demanded sub-invocation must be covered by one of this node's.
+    pub fn covers(&self, inv: &SorobanAuthorizedInvocation) -> bool {
+        fn cov(want: &SorobanAuthorizedInvocation, got: &SorobanAuthorizedInvocation) -> bool {
+            want.function == got.function && got.sub_invocations.iter().all(|g| want.sub_invocations.iter().any(|w| cov(w, g)))
+        }
+        cov(&self.to_xdr(), inv)
+    }
     fn to_xdr(&self) -> SorobanAuthorizedInvocation {
         SorobanAuthorizedInvocation {
             function: SorobanAuthorizedFunction::ContractFn(InvokeContractArgs {
@@ -144,6 +153,9 @@ pub struct CallResult {
     /// an aborted attempt left a trace (ledger entry or event) behind
     pub abort_leak: Option<String>,
     pub cpu: u64,
+    /// AuthVar::Everyone only: an authorisation the contracts demanded of a principal the harness would
+    /// have signed for that is not covered by what the harness would have signed (see AuthNode::covers)
+    pub auth_demand_mismatch: Option<String>,
 }
 
 impl CallResult {
@@ -414,6 +426,7 @@ impl Sim {
                             abort: AbortStatus::Completed,
                             abort_leak: None,
                             cpu: 0,
+                            auth_demand_mismatch: None,
                         };
                     }
                 }
@@ -427,9 +440,24 @@ impl Sim {
         }
         let events = self.drain_events();
         let post = self.digest();
+        let mut auth_demand_mismatch = None;
         if self.permissive_next {
             self.permissive_next = false;
             self.count("F7.everyone_permissive_call");
+            if out.is_ok() {
+                // what did the contracts actually ask of the principals the harness would have signed for?
+                let recorded = self.env.host().get_authenticated_authorizations().unwrap_or_default();
+                for (who, inv) in recorded.iter() {
+                    let mine: Vec<&AuthEntry> = auth.iter().filter(|e| ScAddress::try_from(&e.who).ok().as_ref() == Some(who)).collect();
+                    if mine.is_empty() {
+                        continue;
+                    }
+                    self.count("probe.recorded_authorisation_demand_compared");
+                    if !mine.iter().any(|e| e.root.covers(inv)) {
+                        auth_demand_mismatch = Some(format!("{}: the contracts asked {:?} to authorise {:?}, which is not the call (and nested calls) as made", func, who, inv));
+                    }
+                }
+            }
         }
         CallResult {
             out,
@@ -439,6 +467,7 @@ impl Sim {
             abort: status,
             abort_leak: leak,
             cpu,
+            auth_demand_mismatch,
         }
     }
 
